@@ -310,7 +310,7 @@ def replay_case(line):
         op = t[p]
         if op == "P": hist.append(("P", int(t[p + 1]))); p += 2
         elif op == "X": hist.append(("X", int(t[p + 1]), int(t[p + 2]))); p += 3
-        elif op in ("S", "CC", "SI"): hist.append((op, int(t[p + 1]), int(t[p + 2]), int(t[p + 3]))); p += 4
+        elif op in ("S", "CC", "SI", "SN"): hist.append((op, int(t[p + 1]), int(t[p + 2]), int(t[p + 3]))); p += 4
         else: hist.append((op, int(t[p + 1]), int(t[p + 2]))); p += 3
     # scalars of the linear combination from the pool (entry where x1 or x2 is non-zero)
     a = c = Fraction(0)
